@@ -85,8 +85,8 @@ class Sim:
     # ---- pieces
     def shift_into(self, dst, a, extra=0):
         off = self.off1(dst, a)
-        dst.d, dst.b = a.d, a.b
-        dst.b = self.budget_sub(a.b, off + extra)
+        lb = self.budget_sub(a.b, off + extra)
+        dst.d, dst.b = a.d, lb
 
     def pt_align(self, dst, pd, pb, pq):
         if self.q != pq:
@@ -197,6 +197,88 @@ class Sim:
         tmp = Ct(dst.size)
         prod(tmp)
         self.add_assign(dst, tmp)
+
+    # ---- composite.rs
+    def acc_fits(self, n):
+        if not (self.q < 64 and n <= 2 ** (63 - self.q)):
+            raise Err("other")
+
+    def add_into(self, cd, ca, cb):
+        off = max(0, min(ca.eff(), cb.eff()) - self.maxk(cd))
+        lb = self.budget_sub(min(ca.b, cb.b), off)
+        cd.d, cd.b = min(ca.d, cb.d), lb
+
+    def add_many(self, dst, ins):
+        if not ins:
+            raise Err("other")
+        if len(ins) == 1:
+            self.shift_into(dst, ins[0])
+            return
+        self.acc_fits(len(ins))
+        self.add_into(dst, ins[0], ins[1])
+        for c in ins[2:]:
+            self.add_assign(dst, c)
+
+    def mul_many_rec(self, dst, ins):
+        if any(c.d != ins[0].d for c in ins):
+            raise Err("other")
+        if len(ins) == 1:
+            self.shift_into(dst, ins[0])
+        elif len(ins) == 2:
+            self.mul_into(dst, ins[0], ins[1])
+        else:
+            mid = len(ins) // 2
+            left, right = ins[:mid], ins[mid:]
+            cl2 = lambda n: 0 if n <= 1 else (n - 1).bit_length()
+            lk = max(0, min(c.eff() for c in left) - cl2(len(left)) * ins[0].d)
+            rk = max(0, min(c.eff() for c in right) - cl2(len(right)) * ins[0].d)
+            lt, rt = Ct(div_ceil(lk, self.q)), Ct(div_ceil(rk, self.q))
+            self.mul_many_rec(lt, left)
+            self.mul_many_rec(rt, right)
+            self.mul_into(dst, lt, rt)
+
+    def accumulate(self, dst, terms):
+        for t in terms:
+            tmp = Ct(dst.size)
+            t(tmp)
+            self.add_assign(dst, tmp)
+
+    def dot_ct(self, dst, A, Bs):
+        if len(A) == 0 or len(A) != len(Bs):
+            raise Err("other")
+        self.acc_fits(len(A))
+        if len(A) == 1:
+            self.mul_into(dst, A[0], Bs[0])
+            return
+        amin, bmin = min(c.b for c in A), min(c.b for c in Bs)
+        a_al = all(c.b == amin and c.d == A[0].d for c in A)
+        b_al = all(c.b == bmin and c.d == Bs[0].d for c in Bs)
+        uniform = all(c.d == A[0].d for c in A) and all(c.d == Bs[0].d for c in Bs)
+        if not uniform:
+            self.mul_into(dst, A[0], Bs[0])
+            self.accumulate(dst, [(lambda t, x=x, y=y: self.mul_into(t, x, y)) for x, y in list(zip(A, Bs))[1:]])
+            return
+        ald, bld = A[0].d, Bs[0].d
+        aT, bT = amin + ald, bmin + bld
+        if max(ald, bld) > min(amin, bmin):
+            raise Err(f"MultiplicationPrecisionUnderflow:{amin}:{bmin}:{ald}:{bld}")
+        lhr0 = min(amin, bmin) - max(ald, bld)
+        rld = min(ald, bld)
+        ro = max(0, lhr0 + rld - self.maxk(dst))
+        rlb = self.budget_sub(lhr0, ro)
+        cnv = max(amin, bmin) + max(ald, bld) + ro
+        for x, y in zip(A, Bs):
+            xa = x if a_al else Ct(div_ceil(aT, self.q), ald, amin)
+            yb = y if b_al else Ct(div_ceil(bT, self.q), bld, bmin)
+            self.usub(self.eff_limbs(xa) + self.eff_limbs(yb), self.cnv_hi(cnv))
+        dst.d, dst.b = rld, rlb
+
+    def dot_with(self, dst, A, first, term):
+        if not A:
+            raise Err("other")
+        self.acc_fits(len(A))
+        first(dst, A[0])
+        self.accumulate(dst, [(lambda t, a=a: term(t, a)) for a in A[1:]])
 
     # ---- one API call; returns (outcome string, finding key or None)
     def step(self, f):
@@ -440,6 +522,43 @@ class Sim:
                 if pd + pb > self.maxk(cd):
                     raise Err(f"LimbReallocationShrinksBelowMetadata:{self.maxk(cd)}:{pd}:{self.q}:{cd.size}")
                 cd.d, cd.b = pd, pb
+            elif name in ("add_many", "mul_many"):
+                d = iv[0]
+                cd = slot(d)
+                cs = [slot(a) for a in iv[1:]]
+                distinct(d, *iv[1:])
+                if name == "add_many":
+                    self.add_many(cd, cs)
+                else:
+                    if not cs:
+                        raise Err("other")
+                    self.mul_many_rec(cd, cs)
+            elif name == "dot_ct":
+                d, n = iv[0], iv[1]
+                if len(iv) != 2 + 2 * n:
+                    return "bad-op", None
+                cd = slot(d)
+                A = [slot(a) for a in iv[2:2 + n]]
+                Bs = [slot(a) for a in iv[2 + n:]]
+                distinct(d, *iv[2:])
+                self.dot_ct(cd, A, Bs)
+            elif name in ("dot_pt_znx", "dot_pt_rnx", "dot_cst_rnx"):
+                d, n = iv[0], iv[1]
+                cd = slot(d)
+                A = [slot(a) for a in iv[2:2 + n]]
+                distinct(d, *iv[2:2 + n])
+                rest = iv[2 + n:]
+                if name == "dot_pt_znx":
+                    pd, pb, pq = rest
+                    self.pt_build(pd, pb)
+                    self.dot_with(cd, A, lambda t, a: self.mul_pt_znx(t, a, pd, pb, pq), lambda t, a: self.mul_pt_znx(t, a, pd, pb, pq))
+                elif name == "dot_pt_rnx":
+                    pd, pb = rest
+                    self.dot_with(cd, A, lambda t, a: self.mul_pt_rnx(t, a, pd, pb), lambda t, a: self.mul_pt_rnx(t, a, pd, pb))
+                else:
+                    pd, pb, re, im = rest
+                    self.dot_with(cd, A, lambda t, a: self.mul_cst_rnx(t, a, pd, pb, re, im, False),
+                                  lambda t, a: self.mul_cst_rnx(t, a, pd, pb, re, im, False))
             elif name == "dec":
                 a, pd, pb, pq = iv
                 ca = slot(a)
@@ -460,14 +579,18 @@ class Sim:
 # generator
 # --------------------------------------------------------------------------------------------------
 BACKENDS = [("ntt120ref", 52), ("fft64ref", 17), ("ntt120avx", 52), ("fft64avx", 17)]
+F128 = ("ntt120ref128", 52)      # f128 plaintexts (max_log_delta_prec 113); NTT120 only, as in the crate's own f128 tests
 
 
 class Gen:
     def __init__(self, rng, be, q, n):
         self.r = rng
         self.be, self.q, self.n = be, q, n
-        self.maxprec = 53
-        if q == 52:
+        self.maxprec = 113 if be.endswith("128") else 53
+        if be.endswith("128"):
+            sizes = [rng.range(8, 12) for _ in range(rng.range(3, 4))]
+            self.dlo, self.dhi = 56, 100
+        elif q == 52:
             sizes = [rng.range(3, 5) for _ in range(rng.range(3, 5))]
             self.dlo, self.dhi = 18, 40
         else:
@@ -491,7 +614,7 @@ class Gen:
         if boundary:
             c = r.below(6)
             if c == 0:
-                return (r.range(50, 60), r.range(0, 4))          # around the f64 precision bound 53
+                return (r.range(self.maxprec - 3, self.maxprec + 7), r.range(0, 4))     # around the precision bound of the float type
             if c == 1:
                 return (0, 0)                                    # zero precision
             if c == 2:
@@ -499,7 +622,7 @@ class Gen:
             if c == 3:
                 return (r.range(1, 6), 0)
         d = self.delta if r.chance(2, 3) else max(1, self.delta + r.range(-8, 8))
-        return (min(d, 53), r.range(0, 12))
+        return (min(d, self.maxprec), r.range(0, 12))
 
     def candidate(self, sim, boundary):
         r, q = self.r, self.q
@@ -533,6 +656,7 @@ class Gen:
             ("rot", 5), ("rot_assign", 3), ("conj", 3), ("conj_assign", 2),
             ("rescale", 5), ("rescale_assign", 6), ("align", 2),
             ("compact", 10), ("realloc", 2), ("compact_copy", 2), ("set_meta", 1), ("dec", 3),
+            ("add_many", 4), ("mul_many", 4), ("dot_ct", 4), ("dot_pt_znx", 2), ("dot_pt_rnx", 2), ("dot_cst_rnx", 2),
         ]
         if not live:
             name = "enc"
@@ -544,6 +668,19 @@ class Gen:
                     break
                 x -= w
         cd = P[d]
+        if name in MANY_OUT:
+            srcs = [i for i in others if i in live] or others
+            n = r.range(1, 4) if not boundary else r.choice([0, 1, 2, 5])
+            pick = lambda: [r.choice(srcs) for _ in range(n)]
+            if name in ("add_many", "mul_many"):
+                return [name, d] + pick()
+            if name == "dot_ct":
+                return [name, d, n] + pick() + pick()
+            if name == "dot_pt_znx":
+                return [name, d, n] + pick() + [pd, pb, pq]
+            if name == "dot_pt_rnx":
+                return [name, d, n] + pick() + [pd, pb]
+            return [name, d, n] + pick() + [pd, pb, re, im]
         if name == "enc":
             kmax = cd.size * q
             if boundary:
@@ -638,9 +775,9 @@ def parse_header(line):
 
 
 def oracle(line, impl_steps):
-    """Property oracle: judges the implementation's own outputs against the statement, along the
-    run that a caller propagating errors with `?` performs: up to and including the first call that
-    does not return Ok.  Returns a list with at most one (step index, key, description)."""
+    """Property oracle: judges the implementation's own outputs against the statement along the whole
+    run of a caller that handles errors and goes on (an Err leaves consistent state, docs/fixes/08).
+    Returns a list with at most one (step index, key, description)."""
     kv, keys, pool, ops = parse_header(line)
     q = int(kv["base2k"])
     sim = Sim(q, keys, int(kv.get("maxprec", 53)), pool)
@@ -654,19 +791,17 @@ def oracle(line, impl_steps):
         if got.startswith("panic") or got.startswith("harness-panic"):
             k = key if want.startswith("panic") else None
             return [(i, k, f"step {i} `{op}` panics ({got}); the statement allows only ok/err")]
-        if got.startswith("ok@"):
-            cur = got[3:].split("/")
+        if got.startswith("ok@") or got.startswith("err:"):
+            cur = got.split("@")[-1].split("/")
             for j, e in enumerate(cur):
                 d, b, s = (int(x) for x in e.split("."))
                 if d + b > s * q and (prev is None or j >= len(prev) or prev[j] != e):
                     k = None
-                    return [(i, k, f"step {i} `{op}` returns ok with log_delta+log_budget={d + b} > max_k={s * q} on slot {j}")]
+                    return [(i, k, f"step {i} `{op}` returns {got.split('@')[0].split(':')[0]} leaving log_delta+log_budget={d + b} > max_k={s * q} on slot {j}")]
             prev = cur
         if got.split("@")[0] != want.split("@")[0]:
             # ok / err / error fields differ from the documented conditions (the mirror encodes them)
             return [(i, None, f"step {i} `{op}`: implementation {got.split('@')[0]}, documented behaviour {want.split('@')[0]}")]
-        if got.startswith("err"):
-            break          # the caller stops here
         if got != want:
             return [(i, None, f"step {i} `{op}`: implementation state {got}, documented {want}")]
     return []
@@ -750,6 +885,205 @@ def store_corpus(name, line, comment):
             fh.write("# " + comment + "\n" + line + "\n")
 
 
+# --------------------------------------------------------------------------------------------------
+# scenario class: every out-of-place operation × destination narrower than / as wide as the natural
+# result × a.budget </=/> b.budget × a.delta </=/> b.delta (value check on)
+# --------------------------------------------------------------------------------------------------
+BINARY_CT = ["add", "sub", "mul", "mul_add_ct", "mul_sub_ct"]
+UNARY_OUT = ["add_pt_znx", "sub_pt_znx", "add_pt_rnx", "sub_pt_rnx", "add_cst_rnx", "sub_cst_rnx", "add_cst_znx", "sub_cst_znx",
+             "neg", "square", "mul_pt_znx", "mul_pt_rnx", "mul_cst_rnx", "mul_add_pt_znx", "mul_sub_pt_znx", "mul_add_pt_rnx",
+             "mul_sub_pt_rnx", "mul_add_cst_rnx", "mul_sub_cst_rnx", "mul_pow2", "div_pow2", "rot", "conj", "rescale"]
+MANY_OUT = ["add_many", "mul_many", "dot_ct", "dot_pt_znx", "dot_pt_rnx", "dot_cst_rnx"]
+REL = {-1: "<", 0: "=", 1: ">"}
+
+
+def sgn(x):
+    return (x > 0) - (x < 0)
+
+
+def scenario_programs(rng, reps):
+    """deterministic grid, random parameters inside each cell"""
+    lines = []
+    idx = 0
+    for rep in range(reps):
+        for name in BINARY_CT + UNARY_OUT:
+            for narrow in (1, 0):
+                for brel in ((-1, 0, 1) if name in BINARY_CT else (0,)):
+                    for drel in (-1, 0, 1):
+                        be, q = BACKENDS[idx % 4]
+                        idx += 1
+                        W = 7 if q == 52 else 9
+                        d = rng.range(26, 40) if q == 52 else rng.range(14, 22)
+                        B = rng.range(150, 200) if q == 52 else rng.range(70, 90)
+                        g = rng.range(3, 9)
+                        r = rng.range(1, q + 5) if q == 52 else rng.range(1, 20)
+                        da, db = (d - g, d) if drel < 0 else (d, d - g) if drel > 0 else (d, d)
+                        ba, bb = (B - r, B) if brel < 0 else (B, B - r) if brel > 0 else (B, B)
+                        ka, kb = da + ba, db + bb
+                        pre = [f"enc,0,{ka},{da},0,{q}"]
+                        binary = name in BINARY_CT
+                        if binary:
+                            pre.append(f"enc,1,{kb},{db},0,{q}")
+                        # natural effective_k of the result
+                        pd = db                     # plaintext / constant precision plays the role of b's delta
+                        if name in ("add", "sub"):
+                            nat = min(ka, kb)
+                        elif name in ("mul", "mul_add_ct", "mul_sub_ct"):
+                            nat = min(ba, bb) - max(da, db) + min(da, db)
+                        elif name == "square":
+                            nat = ba - da + da
+                        elif name.startswith("mul_pt") or name.startswith("mul_cst") or name.startswith("mul_add_pt") or name.startswith("mul_sub_pt") \
+                                or name.startswith("mul_add_cst") or name.startswith("mul_sub_cst"):
+                            nat = ba - pd + da
+                        elif name == "rescale":
+                            nat = ka - r
+                        else:
+                            nat = ka
+                        if narrow:
+                            size = max(1, (nat - 1) // q - rng.below(2))
+                        else:
+                            size = min(W, nat // q + 1 + rng.below(2))
+                        if size * q >= nat and narrow:
+                            size = max(1, size - 1)
+                        pool = f"{W}:0:0/{W}:0:0/{size}:0:0"
+                        if name.startswith("mul_add") or name.startswith("mul_sub"):
+                            # the destination of a multiply-accumulate holds a value
+                            kd = min(size * q, nat if nat > d + 4 else size * q)
+                            pre.append(f"enc,2,{max(kd, da + 2)},{min(da, db)},0,{q}")
+                        if binary:
+                            op = f"{name},2,0,1"
+                        elif name in ("add_pt_znx", "sub_pt_znx", "mul_pt_znx", "mul_add_pt_znx", "mul_sub_pt_znx"):
+                            op = f"{name},2,0,{pd},{rng.range(0, 6)},{q}"
+                        elif name in ("add_pt_rnx", "sub_pt_rnx", "mul_pt_rnx", "mul_add_pt_rnx", "mul_sub_pt_rnx"):
+                            op = f"{name},2,0,{pd},{rng.range(0, 6)}"
+                        elif name in ("add_cst_rnx", "sub_cst_rnx", "mul_cst_rnx", "mul_add_cst_rnx", "mul_sub_cst_rnx"):
+                            re, im = rng.choice([(1, 0), (0, 1), (1, 1)])
+                            op = f"{name},2,0,{pd},{rng.range(0, 6)},{re},{im}"
+                        elif name in ("add_cst_znx", "sub_cst_znx"):
+                            off = max(0, ka - size * q)
+                            re, im = rng.choice([(1, 0), (0, 1), (1, 1)])
+                            op = f"{name},2,0,{max(1, ba - off) + pd},{pd},{re},{im}"
+                        elif name in ("neg", "square", "conj"):
+                            op = f"{name},2,0"
+                        elif name in ("mul_pow2", "div_pow2"):
+                            op = f"{name},2,0,{rng.range(1, 6)}"
+                        elif name == "rot":
+                            op = f"{name},2,0,1"
+                        elif name == "rescale":
+                            op = f"rescale,2,{r},0"
+                        else:
+                            continue
+                        n = 16 if idx % 3 else 64
+                        lines.append(f"be={be} n={n} base2k={q} maxprec=53 keys=1 pool={pool} vals=1 mag=1.0 ops=" + ";".join(pre + [op]))
+        # composite operations: natural width from the mirror run into a very wide destination
+        for name in MANY_OUT:
+            for narrow in (1, 0):
+                for brel in (-1, 0, 1):
+                    be, q = BACKENDS[idx % 4]
+                    idx += 1
+                    W = 7 if q == 52 else 9
+                    d = rng.range(26, 40) if q == 52 else rng.range(14, 22)
+                    B = rng.range(150, 200) if q == 52 else rng.range(70, 90)
+                    r = rng.range(1, q + 5) if q == 52 else rng.range(1, 20)
+                    g = rng.range(3, 9) if name in ("add_many", "dot_ct", "dot_cst_rnx") and rng.chance(1, 2) else 0
+                    bs = [B, B + brel * r, B - (r if brel == 0 and rng.chance(1, 2) else 0)]
+                    ds = [d, d - g, d]
+                    pre = [f"enc,{i},{ds[i] + bs[i]},{ds[i]},0,{q}" for i in range(3)]
+                    if name == "add_many":
+                        body = ["add_many", 3, 0, 1, 2]
+                    elif name == "mul_many":
+                        pre = [f"enc,{i},{d + bs[i]},{d},0,{q}" for i in range(3)]
+                        body = ["mul_many", 3, 0, 1, 2]
+                    elif name == "dot_ct":
+                        body = ["dot_ct", 3, 2, 0, 1, 1, 2]
+                    elif name == "dot_pt_znx":
+                        body = ["dot_pt_znx", 3, 2, 0, 1, d, rng.range(0, 5), q]
+                    elif name == "dot_pt_rnx":
+                        body = ["dot_pt_rnx", 3, 2, 0, 2, d, rng.range(0, 5)]
+                    else:
+                        body = ["dot_cst_rnx", 3, 3, 0, 1, 2, d, rng.range(0, 5), 1, rng.below(2)]
+                    sim = Sim(q, [1], 53, [(W, 0, 0)] * 3 + [(10000, 0, 0)])
+                    for o in pre:
+                        sim.step(o.split(","))
+                    out, _ = sim.step([str(x) for x in body])
+                    nat = sim.pool[3].eff() if out.startswith("ok") else 2 * q
+                    size = max(1, (nat - 1) // q - rng.below(2)) if narrow else min(W, nat // q + 1 + rng.below(2))
+                    if narrow and size * q >= nat:
+                        size = max(1, size - 1)
+                    n = 16 if idx % 3 else 64
+                    lines.append(f"be={be} n={n} base2k={q} maxprec=53 keys=1 pool={W}:0:0/{W}:0:0/{W}:0:0/{size}:0:0 vals=1 mag=1.0 ops="
+                                 + ";".join(pre + [",".join(str(x) for x in body)]))
+    return lines
+
+
+def natural_eff(q, keys, st, f):
+    """effective_k the call would produce into an unboundedly wide destination (mirror run)"""
+    d = int(f[1])
+    pool = [(s, dd, b) for (dd, b, s) in st]
+    pool[d] = (10000, pool[d][1], pool[d][2])
+    sim = Sim(q, keys, 53, pool)
+    out, _ = sim.step(f)
+    return sim.pool[d].eff() if out.startswith("ok") else None
+
+
+def cells_of(line, impl_steps):
+    """(op, offset > 0, budget relation) of every out-of-place call that returned Ok, computed from
+    the implementation's own states"""
+    kv, keys, pool, ops = parse_header(line)
+    q = int(kv["base2k"])
+    st = [(d, b, s) for (s, d, b) in pool]
+    out = []
+    for i, op in enumerate(ops):
+        if i >= len(impl_steps) or "@" not in impl_steps[i]:
+            break
+        f = op.split(",")
+        name = f[0]
+        try:
+            if impl_steps[i].startswith("ok") and name in MANY_OUT:
+                nat = natural_eff(q, keys, st, f)
+                if nat is not None:
+                    out.append((name, nat > st[int(f[1])][2] * q, "-"))
+            elif impl_steps[i].startswith("ok") and (name in BINARY_CT or name in UNARY_OUT):
+                dd, db_, ds = st[int(f[1])]
+                K = ds * q
+                if name in BINARY_CT:
+                    (da, ba, _), (dbb, bb, _) = st[int(f[2])], st[int(f[3])]
+                    rel = REL[sgn(ba - bb)]
+                    if name in ("add", "sub"):
+                        nat = min(da + ba, dbb + bb)
+                    else:
+                        nat = min(ba, bb) - max(da, dbb) + min(da, dbb)
+                else:
+                    a = int(f[3]) if name == "rescale" else int(f[2])
+                    da, ba, _ = st[a]
+                    rel = "-"
+                    if name == "rescale":
+                        nat = da + ba - int(f[2])
+                    elif name == "square":
+                        nat = ba
+                    elif name.startswith("mul_") and name not in ("mul_pow2",):
+                        nat = ba - int(f[3]) + da
+                    else:
+                        nat = da + ba
+                out.append((name, nat > K, rel))
+        except (IndexError, ValueError):
+            pass
+        st = [tuple(int(x) for x in e.split(".")) for e in impl_steps[i].split("@")[1].split("/")]
+    return out
+
+
+def required_cells():
+    req = []
+    for name in BINARY_CT:
+        for off in (True, False):
+            for rel in "<=>":
+                req.append((name, off, rel))
+    for name in UNARY_OUT + MANY_OUT:
+        for off in (True, False):
+            req.append((name, off, "-"))
+    return req
+
+
 def run(ctx):
     rng = ctx.rng
     quick = ctx.tier == "quick"
@@ -773,6 +1107,7 @@ def run(ctx):
     if drv is None:
         broken.append("model driver does not build")
     hist = {}
+    cells = {}
     vstats = {"checked": 0, "worst_slack": -99.0, "failed": 0}
     findings = {}          # key -> (line, description)
     unknown = []           # (line, description)
@@ -800,6 +1135,8 @@ def run(ctx):
                     pass
                 hist[(name, kind)] = hist.get((name, kind), 0) + 1
                 ctx.count_case((kv["be"], kv["n"], name, kind) + feat, nontrivial=True)
+            for cell in cells_of(line, i):
+                cells[cell] = cells.get(cell, 0) + 1
             if k is not None:
                 ctx.disagreements += 1
                 disagree.append((line, k, m[k] if k < len(m) else "-", i[k] if k < len(i) else "-"))
@@ -816,8 +1153,6 @@ def run(ctx):
             for s, dgs in enumerate(dg):
                 if first_finding is not None and s >= first_finding:
                     break
-                if s < len(i) and i[s].startswith("err"):
-                    break      # the judged run ends at the first Err (as in `oracle`)
                 if dgs and dgs != "-":
                     try:
                         l2e, ld, l2m, lb = dgs.split(":")
@@ -845,12 +1180,17 @@ def run(ctx):
         if cl:
             judge([l for _, l in cl], "corpus")
         ctx.cov["corpus_programs"] = len(cl)
+        # ---- scenario grid: every out-of-place op × narrow/wide destination × budget relation × delta relation
+        sl = scenario_programs(rng.fork(), 1 if quick else 20)
+        for off in range(0, len(sl), 500):
+            judge(sl[off:off + 500], "scenario")
+        ctx.cov["scenario_programs"] = len(sl)
         # ---- generated programs
         n_prog = 300 if quick else 20000
         max_steps = 12 if quick else 16
         lines = []
         for p in range(n_prog):
-            be, q = BACKENDS[p % 4]
+            be, q = BACKENDS[p % 4] if p % 10 != 9 else F128
             n = 16 if (p // 4) % 3 else 64
             g = Gen(rng.fork(), be, q, n)
             ops = g.program(g.r.range(4, max_steps))
@@ -859,6 +1199,11 @@ def run(ctx):
         for off in range(0, len(lines), 500):
             judge(lines[off:off + 500], "gen")
         ctx.cov["programs"] = len(lines)
+        per_be = {}
+        for l in lines:
+            b = l.split()[0][3:]
+            per_be[b] = per_be.get(b, 0) + 1
+        ctx.cov["programs_per_backend"] = per_be
         # ---- encode → decode identity
         rt = []
         r2 = rng.fork()
@@ -867,7 +1212,10 @@ def run(ctx):
             d = r2.range(4, 53)
             b = r2.range(0, 12)
             mag = r2.choice([1.0, 0.5, 2.0 ** max(0, b - 2), 2.0 ** max(0, b - 1) * 0.69])   # 0.69 ≈ 0.98/√2: slot bound → coefficient bound
-            rt.append((q, d, b, mag, f"{k} roundtrip n={r2.choice([16, 64])} base2k={q} delta={d} budget={b} mag={mag} seed={k}"))
+            fl = "f128" if k % 4 == 3 else "f64"
+            if fl == "f128":
+                d = r2.range(4, 113)
+            rt.append((q, d, b, mag, f"{k} roundtrip n={r2.choice([16, 64])} base2k={q} delta={d} budget={b} mag={mag} seed={k} float={fl}"))
         rc, rout, _ = ctx.run_lines(binp, ["ckks"], [x[-1] for x in rt])
         worst_enc, worst_full, rt_bad = -1074.0, -99.0, 0
         for (q, d, b, mag, req), l in zip(rt, rout):
@@ -892,6 +1240,11 @@ def run(ctx):
         ctx.cov["roundtrip"] = {"cases": len(rt), "worst_encoder_log2_rel": worst_enc, "worst_quantised_log2_times_delta": worst_full, "bad": rt_bad}
 
     # ---- reporting
+    ctx.cov["cells_op_offset_budgetrel"] = {f"{n}|off>0={int(o)}|{r}": v for (n, o, r), v in sorted(cells.items())}
+    empty = [f"{n}|off>0={int(o)}|{r}" for (n, o, r) in required_cells() if cells.get((n, o, r), 0) == 0]
+    ctx.cov["empty_cells"] = empty
+    if empty and binp is not None and drv is not None:
+        broken.append("scenario grid left cells without an Ok call: " + ", ".join(empty[:12]))
     ctx.cov["outcome_histogram"] = {f"{k[0]}:{k[1]}": v for k, v in sorted(hist.items())}
     ctx.cov["values"] = vstats
     ctx.cov["finding_keys_seen"] = sorted(findings)
